@@ -1017,7 +1017,7 @@ class Interp:
                 env[kw.arg] = self._default(fi, kw.arg, d)
         for n in names:
             if n not in env:
-                raise AnalysisError("ABSINT", f"missing argument {n} for {fi.qual}")
+                raise AbsRaise(f"TypeError: {fi.name}() missing 1 required positional argument: '{n}'", loc(fi.unit.path, fi.node))
         return env
 
     # -- statements ---------------------------------------------------------------------------
@@ -2157,6 +2157,11 @@ class Interp:
                 return ("subclasses", ci)
             if attr == "__name__":
                 return ci.name
+            plain_ = {"object", "ABC", "Generic", "Protocol", "Exception"}
+            if not ci.unit.env and all(self.pm.resolve_base(c_, b_) is not None or b_.split(".")[-1].split("[")[0] in plain_
+                                       for c_ in self.pm.mro(ci) for b_ in c_.bases) and not attr.startswith("__"):
+                # every base of the class is known: the attribute does not exist
+                raise AbsRaise(f"AttributeError: type object '{ci.name}' has no attribute '{attr}'", where)
             raise AnalysisError("ABSINT", f"unknown class attribute {ci.name}.{attr}", where)
         if isinstance(obj, (LocalFunc, BoundWrapper)):
             lf = obj.func if isinstance(obj, BoundWrapper) else obj
